@@ -196,6 +196,59 @@ fn zero_draw_probes(ctx: &mut Ctx, w: &World, view: &mut View, ch: &Chan) {
     }
 }
 
+/// An entropy source whose `try_fill_bytes` reports an error (buffer untouched) while `fill_bytes` works is a legal
+/// `RngCore`.  Every customer message must be the same as under the ordinary source with the same stream: a library that
+/// reads randomness through the fallible interface and drops the error would send messages built from constants
+/// (unblinded commitments, a zero blinding factor in every lock message).  A panic instead of a message is not a violation.
+fn fallible_entropy_probe(ctx: &mut Ctx, w: &World, ch: &Chan) {
+    let book = ctx.book.clone();
+    let seed: u64 = ctx.prng.gen();
+    let run = |fail: bool, what: usize, stage_bytes: &[u8], amount: i64| -> Option<Vec<u8>> {
+        let mut rng = ScriptedRng::new(seed, book.clone());
+        rng.fail_try = fail;
+        let ctxt = ch.a.context();
+        std::panic::catch_unwind(std::panic::AssertUnwindSafe(|| -> Option<Vec<u8>> {
+            match what {
+                0 => {
+                    let (mbal, cbal) = (zkabacus_crypto::MerchantBalance::try_new(ch.a.mb).ok()?, zkabacus_crypto::CustomerBalance::try_new(ch.a.cb).ok()?);
+                    let (rq, proof) = zkabacus_crypto::customer::Requested::new(&mut rng, &w.customer, ch.a.cid, mbal, cbal, &ctxt);
+                    let mut b = wire::ser(&proof); b.extend(wire::ser(&rq)); Some(b)
+                }
+                1 => {
+                    let r: zkabacus_crypto::customer::Ready = wire::de(stage_bytes).ok()?;
+                    let (st, msg) = r.start(&mut rng, amount_of(amount), &ctxt, &w.customer).ok()?;
+                    let mut b = wire::ser(&msg.nonce); b.extend(wire::ser(&msg.pay_proof)); b.extend(wire::ser(&st)); Some(b)
+                }
+                _ => {
+                    let r: zkabacus_crypto::customer::Ready = wire::de(stage_bytes).ok()?;
+                    Some(wire::ser(&r.close(&mut rng)))
+                }
+            }
+        })).ok().flatten()
+    };
+    let _ = zkchannels_crypto::proofs::verif_hooks::drain_challenges();
+    let stage_bytes = match &ch.stage { Some(s @ Stage::Ready(_)) => Some(s.bytes()), _ => None };
+    let amount = crate::props::c02::valid_amount(ctx, ch.cb, ch.mb);
+    for what in 0..3usize {
+        let sb: Vec<u8> = match (what, &stage_bytes) { (0, _) => vec![], (_, Some(b)) => b.clone(), _ => continue };
+        let normal = run(false, what, &sb, amount);
+        let failing = run(true, what, &sb, amount);
+        ctx.evals += 1;
+        let name = ["Requested::new", "Ready::start", "Ready::close"][what];
+        match (&normal, &failing) {
+            (Some(a), Some(b)) if a == b => ctx.count(&format!("fallible-entropy:{}:same-message", name)),
+            (_, None) => ctx.count(&format!("fallible-entropy:{}:no-message", name)),
+            (Some(_), Some(b)) => {
+                ctx.count(&format!("fallible-entropy:{}:DIFFERENT-MESSAGE", name));
+                ctx.violation(&format!("{} sends a different message when the entropy source's try_fill_bytes reports an error (fill_bytes unaffected): randomness read through the fallible interface is silently replaced", name),
+                    json!({"class": "message-depends-on-fallible-entropy-interface", "call": name, "message_and_state": hex::encode(&b[..b.len().min(4096)])}));
+            }
+            (None, Some(_)) => ctx.count(&format!("fallible-entropy:{}:only-with-failing-source", name)),
+        }
+    }
+    let _ = zkchannels_crypto::proofs::verif_hooks::drain_challenges();
+}
+
 fn establish(ctx: &mut Ctx, w: &World, view: &mut View, ch: &mut Chan) -> bool {
     let book = ctx.book.clone();
     let run = match establish_customer(ctx, w, &ch.a) { Some(r) => r, None => return false };
@@ -285,7 +338,7 @@ pub fn run(ctx: &mut Ctx) {
         let mut ok = true;
         for ch in chans.iter_mut() { if !establish(ctx, &w, &mut view, ch) { ok = false; } }
         // degenerate draws right after establishment (the merchant has issued a closing signature and a pay token)
-        if let Some(ch) = chans.iter().find(|c| !c.closed && c.stage.is_some()) { zero_draw_probes(ctx, &w, &mut view, ch); }
+        if let Some(ch) = chans.iter().find(|c| !c.closed && c.stage.is_some()) { zero_draw_probes(ctx, &w, &mut view, ch); fallible_entropy_probe(ctx, &w, ch); }
         // interleaved sessions
         let sessions = ctx.prng.gen_range(3..=6);
         for _ in 0..sessions {
